@@ -4,6 +4,16 @@ NOTES = ("All checks run /venv/bin/python on bitstring imported from /repo's wor
          "known_findings.json lists genuine defects (open: reported as KNOWN-FINDING; fixed: suppress nothing).")
 NOT_APPLICABLE = {}
 CHECKS = {
+ 'C16': dict(
+    text="Bounded exhaustive exploration: every ordered pair of contents in the bound x every operator (& | ^ plain, reflected, in-place; ~; << >> <<= >>= with every shift count in the menu) x class combination and promotable operand form is executed on the real classes and compared with Python int arithmetic masked to len; result class, result pos, exception class and 'operands unchanged' (including s OP s) are part of every comparison.",
+    design_ref="DESIGN.md section 4 C16",
+    note="Trusts Python int arithmetic. Contents exhaustive to 7 (quick) / 9 (thorough) bits, plus word-boundary lengths 63..129 (thorough: to 2001).",
+    technique="explicit-state bounded exhaustive enumeration (product explorer) with lock-step integer reference model"),
+ 'C01': dict(
+    text="Bounded exhaustive exploration of the sequence operations: for every (class, content, pos) state in the bound, every index, every slice triple of the stated menus, every concatenation pair (bitstring and promotable operands, both orders) and every repeat count is executed on the real classes and compared with the same expression on the str of the bits (value, class, pos of result, operands unchanged).",
+    design_ref="DESIGN.md section 4 C01",
+    note="Trusts Python str semantics. Contents exhaustive to 9 (quick) / 11 (thorough) bits plus boundary lengths up to 16385 bits; slice index arithmetic checked for all triples on index-plane contents up to L=11/16.",
+    technique="explicit-state bounded exhaustive enumeration (product explorer) with lock-step str reference model"),
  'C07': dict(
     text="Bounded exhaustive exploration: every (class, data, options.bytealigned) state x every search event (find, rfind, findall, in, startswith, endswith, count, cut, split, replace x pattern x start/end x count x bytealigned) within the stated bounds is executed on the real classes and compared with a quadratic-scan reference; a coverage statement over a complete finite product, not a sample.",
     design_ref="DESIGN.md section 4 C07",
